@@ -167,15 +167,35 @@ func CoqCase(in *CaseIn, obs *Observed) string {
 		}
 	}
 	var sched, reqs []string
+	held := false
+	for _, st := range in.Steps {
+		held = held || st.Hold || st.Op == "release"
+	}
 	for _, st := range in.Steps {
 		switch st.Op {
 		case "start":
 			if st.Req != nil {
-				sched = append(sched, fmt.Sprintf("Start %d %s", st.ID, st.Req.Coq()))
+				if !held {
+					sched = append(sched, fmt.Sprintf("Start %d %s", st.ID, st.Req.Coq()))
+				}
 				reqs = append(reqs, fmt.Sprintf("(%d%%nat, (%s, %s))", st.ID, st.Req.Required.Sexp(), st.Req.Want.Sexp()))
 			}
 		case "resume":
-			sched = append(sched, fmt.Sprintf("Resume %d", st.ID))
+			if !held {
+				sched = append(sched, fmt.Sprintf("Resume %d", st.ID))
+			}
+		}
+	}
+	if held {
+		// with a token-server gate in play the order in which the phases took the host's lock is
+		// an outcome of the run: the schedule is the sequence of phases as they were observed
+		for _, e := range obs.Events {
+			switch e.Kind {
+			case "start":
+				sched = append(sched, fmt.Sprintf("Start %d %s", e.ID, e.Req.Coq()))
+			case "resume":
+				sched = append(sched, fmt.Sprintf("Resume %d", e.ID))
+			}
 		}
 	}
 	times := make([]string, len(obs.Events))
